@@ -17,7 +17,9 @@
 """This module implements the 'RLScheduler' scheduler."""
 from __future__ import annotations
 
+import contextlib
 import threading
+from queue import Empty
 from typing import TYPE_CHECKING, cast
 
 import numpy as np
@@ -111,11 +113,14 @@ class RLScheduler(BaseScheduler):
     def _train(self) -> None:
         """Run the training loop."""
         state = self._env.reset()
-        while not self._stopped:
+        while True:
             # Get the action chosen by the agent
             action = self._agent.policy(state)
             # Interact with the environment
-            next_state, reward, _, _, _ = self._env.step(action)
+            next_state, reward, _, truncated, _ = self._env.step(action)
+            if truncated:
+                # end-of-session marker: this action was never executed, nothing to learn
+                break
             # Learn from interaction
             self._agent.learn(state, action, reward, next_state)
             state = next_state
@@ -165,3 +170,7 @@ class RLScheduler(BaseScheduler):
         self._stopped = True
         self._out_queue.put(None)
         cast(threading.Thread, self._agent_thread).join()
+        # discard the action the agent chose last: it was never executed, and
+        # the next session must start from a fresh choice
+        with contextlib.suppress(Empty):
+            self._in_queue.get_nowait()
